@@ -1404,6 +1404,30 @@ def derive_rule(ctx):
         if casts and not uses_idx:
             ctx.ob("R20d", "serialize_enum:tag-source:" + last(clo), False,
                    "closure %s builds a u8 tag that is not the enumerate index" % clo, cb.where)
+        # ... and nothing else: a u8 local that can hold the index cast has no other source (e.g. a parsed discriminant)
+        if uses_idx:
+            cast_dsts = {s["l"][0] for s in casts}
+            carriers = set(cast_dsts)
+            for _ in range(4):
+                for bi, s in cfg.assigns(cb):
+                    if len(s["l"]) == 1 and s["r"]["k"] == "use" and cfg.op_place(s["r"]["o"]) and \
+                            cfg.op_place(s["r"]["o"])[0] in carriers and cb.local_ty(s["l"][0]) == "u8":
+                        carriers.add(s["l"][0])
+            foreign = []
+            for l_ in carriers:
+                for d in cfg.defs(cb).get(l_, []):
+                    if d[0] == "partial":
+                        continue
+                    if d[0] == "assign" and d[2]["k"] == "cast" and l_ in cast_dsts:
+                        continue
+                    if d[0] == "assign" and d[2]["k"] == "use" and cfg.op_place(d[2]["o"]) and cfg.op_place(d[2]["o"])[0] in carriers:
+                        continue
+                    foreign.append(cb.loc(d[1]))
+            if foreign:
+                uses_idx = False
+                ctx.ob("R20d", "serialize_enum:tag-source:" + last(clo), False,
+                       "in closure %s the u8 tag is the enumerate index on some paths and something else on others (defined at "
+                       "%s): written and read tags, or tags of two variants, can disagree" % (clo, foreign), cb.where)
         if uses_idx:
             tag_users.append((clo, "enumerate" in chain))
         # inner field generators
